@@ -52,6 +52,14 @@ func c13Pool(kind string) []lexeme {
 		p = append(p, lx(tokenizers.Symbol, "+", "(")...)
 		return p
 	}
+	if kind == "generic+custom" || kind == "expression+custom" {
+		// symbols of the user's own, some of them starting with the sign, one with a prefix that is no symbol
+		p = append(p, lx(tokenizers.Word, "abc", "y")...)
+		p = append(p, lx(tokenizers.Integer, "12")...)
+		p = append(p, lx(tokenizers.Whitespace, " ")...)
+		p = append(p, lx(tokenizers.Symbol, "->", "-=", "=:~", "~~>", "-", ">", "=", "~", ":", "<=", "(")...)
+		return p
+	}
 	if kind == "generic+latesymbols" {
 		// further symbols registered in two phases, the tokenizer used in between (c13New)
 		p = append(p, lx(tokenizers.Word, "abc", "y")...)
@@ -98,6 +106,8 @@ var c13Multi = map[string][]string{
 	"generic":    {"<>", "<=", ">="},
 	"expression": {"<=", ">=", "<>", "!=", ">>", "<<"},
 	"generic+latesymbols": {"<>", "<=", ">=", "<-->", "<-", "=>>", "=>", "\u223c="},
+	"generic+custom":      {"<>", "<=", ">=", "=:~", "->", "-=", "~~>"},
+	"expression+custom":   {"<=", ">=", "<>", "!=", ">>", "<<", "=:~", "->", "-=", "~~>"},
 }
 
 func isWordCharConservative(r rune) bool {
@@ -168,7 +178,7 @@ func canAbut(kind string, a, b lexeme) bool {
 		if a.text == "я" && isWordCharConservative(bf) && kind == "generic" {
 			return false
 		}
-		if fullKind == "generic+latesymbols" && b.typ == tokenizers.Symbol {
+		if c13Resegmented[fullKind] && b.typ == tokenizers.Symbol {
 			return true // runs of symbols are re-segmented by the reference (longest registered symbol first)
 		}
 		// symbols registered beyond the documented ones are configuration: a pair that, alone, comes back
@@ -197,6 +207,9 @@ func c13OneSymbolAlone(kind string, s string) bool {
 	return v
 }
 
+// kinds whose runs of adjacent symbols are re-segmented by the reference (longest registered symbol first)
+var c13Resegmented = map[string]bool{"generic+latesymbols": true, "generic+custom": true, "expression+custom": true}
+
 var c13Tok = map[string]tokenizers.ITokenizer{}
 
 func c13Base(kind string) string { return strings.SplitN(kind, "+", 2)[0] }
@@ -206,6 +219,8 @@ func c13Base(kind string) string { return strings.SplitN(kind, "+", 2)[0] }
 func c13New(kind string) tokenizers.ITokenizer {
 	t := newTokenizer(c13Base(kind))
 	switch kind {
+	case "generic+custom", "expression+custom":
+		t = newTokenizer(kind)
 	case "generic+symrange":
 		g := t.(*generic.GenericTokenizer)
 		g.SetCharacterState(0x2190, 0x22ff, g.SymbolState())
@@ -267,7 +282,7 @@ func c13Run(c *fw.Ctx, kind string, pool []lexeme, seq []int, mode int) {
 			want = append(want, l)
 		}
 	}
-	if kind == "generic+latesymbols" && mode == 1 {
+	if c13Resegmented[kind] && mode == 1 {
 		// adjacent symbols: expected segmentation = greedy longest registered symbol over the whole run
 		seg := []lexeme{}
 		for i := 0; i < len(want); {
@@ -446,7 +461,7 @@ func init() {
 		ID:    "C13",
 		Level: "model_checking",
 		Rule: "generic and expression tokenizer: every sequence up to the length bound over a pool of class-tagged lexemes (identifiers incl. Latin-1/non-Latin, every keyword in several letter cases, integers, decimals, scientific/signed numbers, quoted strings with doubled quotes/LF/non-ASCII, comments, whitespace runs, every single- and multi-character symbol), " +
-			"the same over smaller pools for a generic tokenizer with U+2190..22FF configured as symbols and an expression tokenizer with U+0400..04FF configured as identifier letters (SetCharacterState on top of the default non-Latin range); (mode 0) separated by one blank and (mode 1) abutting wherever a conservative boundary table says neighbours cannot merge; plus every boundary character (one or more of every Unicode general category among them) as a one-character lexeme of the class its dispatch table gives it, abutting before, after and between 8 neighbour lexemes; oracle: TokenizeStream returns exactly those lexemes with exactly those classes; non-trivial = sequences of >=2 lexemes that were not skipped",
+			"the same over smaller pools for both tokenizers with symbols of the user's own (some starting with the sign, one with a prefix that is no symbol), for a generic tokenizer with U+2190..22FF configured as symbols and an expression tokenizer with U+0400..04FF configured as identifier letters (SetCharacterState on top of the default non-Latin range); (mode 0) separated by one blank and (mode 1) abutting wherever a conservative boundary table says neighbours cannot merge; plus every boundary character (one or more of every Unicode general category among them) as a one-character lexeme of the class its dispatch table gives it, abutting before, after and between 8 neighbour lexemes; oracle: TokenizeStream returns exactly those lexemes with exactly those classes; non-trivial = sequences of >=2 lexemes that were not skipped",
 		Assume: []string{"the conservative abutting table only ever skips sequences; it never predicts a segmentation", "multi-character symbols beyond the documented ones are taken as registered where the pair alone comes back as one symbol (such pairs are not written next to each other)"},
 		Spaces: func(tier string) []fw.Space {
 			maxLen := 3
@@ -454,7 +469,7 @@ func init() {
 				maxLen = 4
 			}
 			sp := []fw.Space{}
-			for _, kind := range []string{"generic", "expression", "generic+symrange", "expression+cyrillic", "generic+latesymbols", "expression+keywords-edited"} {
+			for _, kind := range []string{"generic", "expression", "generic+symrange", "expression+cyrillic", "generic+latesymbols", "expression+keywords-edited", "generic+custom", "expression+custom"} {
 				kind := kind
 				pool := c13Pool(kind)
 				for mode := 0; mode < 2; mode++ {
